@@ -241,3 +241,128 @@ Qed.
 Lemma R_sub_lines command nc ns :
   render (env_cmd command) (R_sub nc ns) = unlines (render_lines (env_cmd command) (R_sub nc ns)).
 Proof. apply render_region. destruct nc, ns; vm_compute; reflexivity. Qed.
+
+(** ** discharging the lines of a region *)
+Definition seg_no_nl (env : list (string * string)) (l : list seg) : bool :=
+  forallb (fun s => match s with
+                    | Text t => no_nl t
+                    | Hole n => match assoc n env with Some v => no_nl v | None => false end
+                    end) l.
+
+Lemma render_no_nl env l : seg_no_nl env l = true -> no_nl (render env l) = true.
+Proof.
+  induction l as [|[t|n] l IH]; cbn [seg_no_nl forallb render]; intros H; [reflexivity | |];
+    apply andb_prop in H; destruct H as [H1 H2]; rewrite no_nl_app, (IH H2), andb_true_r.
+  - exact H1.
+  - destruct (assoc n env); [exact H1 | discriminate].
+Qed.
+
+Definition is_deep (l : list seg) : bool :=
+  match l with Text t :: _ => is_prefix "     " t | _ => false end.
+
+Lemma is_prefix_split p s : is_prefix p s = true -> exists r, s = append p r.
+Proof.
+  revert s. induction p as [|c p IH]; intros s H; [exists s; reflexivity|].
+  destruct s as [|d s]; [discriminate|]. cbn in H. destruct (Ascii.eqb_spec c d); [|discriminate]. subst.
+  destruct (IH _ H) as [r ->]. exists r. reflexivity.
+Qed.
+
+Lemma deep_render_sem cmd env l :
+  is_deep l = true -> seg_no_nl env l = true -> line_sem cmd (render env l) None.
+Proof.
+  intros Hd Hn. split; [apply render_no_nl; exact Hn|]. split; [|exact I]. intros rest.
+  destruct l as [|[t|n] l]; try discriminate. cbn [is_deep] in Hd. destruct (is_prefix_split _ _ Hd) as [r ->].
+  cbn [render]. rewrite !append_assoc. apply deep_none.
+Qed.
+
+(** a line without holes: what the reader makes of it is computed *)
+Definition is_closed (l : list seg) : bool := forallb (fun s => match s with Text _ => true | Hole _ => false end) l.
+
+Lemma closed_render env l : is_closed l = true -> render env l = render [] l.
+Proof.
+  induction l as [|[t|n] l IH]; cbn [is_closed forallb render]; intros H; [reflexivity | | discriminate].
+  rewrite (IH H). reflexivity.
+Qed.
+
+Definition closed_outcome (s : string) : option stmt :=
+  match bash_stmt (append s nl) with Some (st, _) => Some st | None => None end.
+
+Lemma closed_render_sem cmd env l :
+  is_closed l = true -> no_nl (render [] l) = true ->
+  (forall rest, bash_stmt (append (render [] l) (append nl rest))
+                = match closed_outcome (render [] l) with Some st => Some (st, rest) | None => None end) ->
+  match closed_outcome (render [] l) with Some (SFunc _) => False | _ => True end ->
+  line_sem cmd (render env l) (closed_outcome (render [] l)).
+Proof.
+  intros Hc Hn Hrd Hf. rewrite (closed_render env l Hc). split; [exact Hn|]. split; [exact Hrd|].
+  destruct (closed_outcome (render [] l)) as [[]|]; try exact I. destruct Hf.
+Qed.
+
+Ltac closed_line :=
+  apply closed_render_sem; [reflexivity | vm_compute; reflexivity | intro; vm_compute; reflexivity | vm_compute; exact I].
+
+(** lines that carry the command name at statement indentation *)
+Lemma is_cmd_fn_suffix cmd suf :
+  strip "_cmd_" suf = None -> is_cmd_fn cmd (append "_" (append cmd suf)) = false.
+Proof.
+  intros H. unfold is_cmd_fn. rewrite <- (append_assoc "_" cmd "_cmd_"), <- (append_assoc "_" cmd suf).
+  rewrite strip_app_both, H. reflexivity.
+Qed.
+
+Lemma header_sem cmd suf :
+  name_ok cmd -> forallb is_name_char (list_ascii_of_string suf) = true -> no_nl suf = true ->
+  strip "_cmd_" suf = None ->
+  line_sem cmd (append "_" (append cmd (append suf " () {"))) (Some (SFunc (append "_" (append cmd suf)))).
+Proof.
+  intros Hc Hsuf Hnl Hs. split; [|split].
+  - cbn [append no_nl]. rewrite !no_nl_app, (name_ok_no_nl _ Hc), Hnl. reflexivity.
+  - intros rest. unfold bash_stmt, bz_stmt. rewrite !append_assoc.
+    rewrite alt_skip by reflexivity. rewrite alt_skip by reflexivity. rewrite alt_skip by reflexivity.
+    rewrite alt_skip by reflexivity. rewrite alt_skip by reflexivity.
+    apply alt_take. erewrite pbind_lit' by reflexivity.
+    assert (N1 : name (cmd ++ suf ++ " () {" ++ nl ++ rest)%string = Some (append cmd suf, (" () {" ++ nl ++ rest)%string)).
+    { unfold name. rewrite <- append_assoc.
+      assert (T : forallb is_name_char (list_ascii_of_string (cmd ++ suf)) = true).
+      { destruct Hc as [_ Hc]. clear -Hc Hsuf. induction cmd as [|c t IH]; cbn; [exact Hsuf|].
+        cbn in Hc. apply andb_prop in Hc. destruct Hc as [H1 H2]. rewrite H1, (IH H2). reflexivity. }
+      change (" () {" ++ nl ++ rest)%string with (String " " ("() {" ++ nl ++ rest))%string.
+      rewrite (take_name_app _ " "%char _ T eq_refl).
+      destruct Hc as [Hne _]. destruct cmd; [congruence | reflexivity]. }
+    rewrite (pbind_some _ _ _ _ _ N1). erewrite pbind_lit' by reflexivity.
+    rewrite (pbind_some _ _ _ _ _ (eol_nl rest)). reflexivity.
+  - apply is_cmd_fn_suffix. exact Hs.
+Qed.
+
+(** ** region by region *)
+Ltac deep_line Hnl :=
+  apply deep_render_sem;
+  [ reflexivity
+  | unfold seg_no_nl, env_cmd; cbn [forallb assoc String.eqb Ascii.eqb Bool.eqb]; rewrite ?Hnl; reflexivity ].
+
+Ltac region_list R :=
+  let L := eval vm_compute in (region_lines R) in change (region_lines R) with L.
+
+Definition sub_fn_stmts (command : string) : list stmt :=
+  [ SFunc (append "_" (append command "_subword"));
+    SScalar "subword_state" 0; SScalar "char_index" 0; SScalar "matched" 0;
+    SLits "subword_candidates" []; SLits "subword_matches" []; SEnd ].
+
+Lemma R_sub_scan command nc ns k rest :
+  name_ok command ->
+  scan (List.length (region_lines (R_sub nc ns)) + k) Bash command (append (write_subword_fn command nc ns) rest)
+  = sub_fn_stmts command ++ scan k Bash command rest.
+Proof.
+  intros Hc. pose proof (name_ok_no_nl _ Hc) as Hnl.
+  rewrite write_subword_fn_region, R_sub_lines.
+  replace (List.length (region_lines (R_sub nc ns)))
+    with (List.length (render_lines (env_cmd command) (R_sub nc ns))) by apply map_length.
+  destruct nc, ns.
+  all: erewrite scan_lines_sem;
+    [ | unfold render_lines;
+        match goal with |- context [region_lines ?R] => region_list R end;
+        cbn [map];
+        eapply Forall2_cons; [apply (header_sem command "_subword" Hc); reflexivity|];
+        repeat (eapply Forall2_cons; [first [closed_line | deep_line Hnl]|]);
+        apply Forall2_nil ].
+  all: vm_compute; reflexivity.
+Qed.
